@@ -136,17 +136,17 @@ def count_trace(path):
     return positions, pairs, kinds
 
 
-def play_traces(run, vh, prop, n_traces, games, plies, walk, seed):
+def play_traces(run, vh, prop, n_traces, games, plies, walk, seed, roots_file="roots.txt", capture=0, label="play"):
     d = os.path.join(TRACES, prop)
     os.makedirs(d, exist_ok=True)
-    roots = os.path.join(core.VERIF, "lib", "roots.txt")
+    roots = os.path.join(core.VERIF, "lib", roots_file)
     jobs = []
 
     def mk(i):
-        out = os.path.join(d, "play-%d.ndjson" % i)
+        out = os.path.join(d, "%s-%d.ndjson" % (label, i))
         core.sh([vh, "play", "--roots", roots, "--seed", str(seed * 1000 + i), "--games", str(games),
-                 "--plies", str(plies), "--walk", str(walk), "--out", out])
-        return (out, "vh play --roots lib/roots.txt --seed %d --games %d --plies %d --walk %d" % (seed * 1000 + i, games, plies, walk))
+                 "--plies", str(plies), "--walk", str(walk), "--capture", str(capture), "--out", out])
+        return (out, "vh play --roots lib/%s --seed %d --games %d --plies %d --walk %d --capture %d" % (roots_file, seed * 1000 + i, games, plies, walk, capture))
     jobs = core.pmap(mk, range(n_traces))
     return jobs
 
